@@ -19,7 +19,8 @@ RULE = (
     "of 6 texture kinds x grain counts x {olivine, enstatite, 70/30 mix} x {uniform, geometric} "
     "volumes. Q: identity, 23 other cube rotations, generic + seeded rotations, two near-identity "
     "rotations (thorough: all cube x generic products). The tensor in frame Q is built by the "
-    "check's own einsum rotation. A (tensor, Q) point is non-trivial when Q is not the identity, "
+    "check's own einsum rotation; a whole-number matrix (grid tensors in the cube frames) is also "
+    "handed over as an int64 and as a float32 array and must give the same report. A (tensor, Q) point is non-trivial when Q is not the identity, "
     "the tensor is > 0.1 % anisotropic and the frame-independence clauses were actually "
     "evaluated (not gated); distinct = distinct (case key, Q)."
 )
@@ -279,6 +280,23 @@ def run_case(key):
             V("finite", qn, {"out": o, "axis": ax})
             continue
         res["outcomes"].append(digest(np.round([o[k] for k in PCT], 6)))
+
+        # ---- a whole-number matrix handed over as an int64 / float32 array (legal ndarrays)
+        # is the same stiffness matrix: same report
+        if np.array_equal(M, np.rint(M)) and np.abs(M).max() < 2**20:
+            for tag, dt in (("int64", np.int64), ("float32", np.float32)):
+                count("dtype_irrelevant")
+                res["n"] += 1
+                try:
+                    out2 = _EC(np.array([M]).astype(dt))
+                    o2 = {k: float(out2[k][0]) for k in ["bulk_modulus", "shear_modulus"] + PCT}
+                    ax2 = np.array(out2["hexagonal_axis"][0], float)
+                    dv = max(abs(o2[k] - o[k]) / (np.abs(M).max() if "modulus" in k else 1.0) for k in o)
+                    da = min(np.abs(ax2 - ax).max(), np.abs(ax2 + ax).max())
+                    if not (dv <= 1e-9 and da <= 1e-9):
+                        V("dtype_irrelevant", qn, {"dtype": tag, "got": o2, "float64": o, "axis": ax2, "axis_float64": ax}, field=tag)
+                except Exception as e:
+                    V("dtype_irrelevant", qn, {"dtype": tag, "exception": type(e).__name__, "msg": str(e)[:200]}, field=tag, exc=type(e).__name__)
 
         # ---- closed form, in this frame, from the full tensor
         K, G = E.moduli(T)
